@@ -19,11 +19,26 @@ def start_reach(rec):
     prefix = os.path.join(repo_root(), "wavespectra") + os.sep
     counts = rec.reach
 
+    census_dir = os.environ.get("VERIF_ARGCENSUS")          # diagnostic only (tools/arg_census.py), never part of a verdict
+    census = _state["census"] = {} if census_dir else None
+
     def on_start(code, offset):
         fn = code.co_filename
         if not fn.startswith(prefix):
             return mon.DISABLE
         counts[fn[len(prefix):] + ":" + code.co_name] += 1
+        if census is not None:
+            try:
+                loc = sys._getframe(1).f_locals
+                nargs = code.co_argcount + code.co_kwonlyargcount
+                for name in code.co_varnames[:nargs]:
+                    if name in ("self", "cls") or name not in loc:
+                        continue
+                    toks = census.setdefault(fn[len(prefix):] + ":" + code.co_name + ":" + name, set())
+                    if len(toks) < 16:
+                        toks.add(_token(loc[name]))
+            except Exception:
+                pass
 
     try:
         mon.use_tool_id(_TOOL, "vf-reach")
@@ -34,8 +49,32 @@ def start_reach(rec):
     _state["on"] = True
 
 
+def _token(v):
+    """Coarse class of an argument value for the census."""
+    if v is None or isinstance(v, (bool, str)):
+        return repr(v)[:40]
+    if isinstance(v, (int, float)):
+        return repr(v)[:20]
+    t = type(v).__name__
+    if isinstance(v, np.ndarray):
+        return "ndarray[%s,%dd]" % (v.dtype.kind, v.ndim)
+    if t in ("DataArray", "Dataset"):
+        try:
+            lazy = bool(v.chunks)
+        except Exception:
+            lazy = False
+        return t + ("[dask]" if lazy else "")
+    if isinstance(v, (list, tuple, dict)):
+        return "%s[%d]" % (t, min(len(v), 3))
+    return t
+
+
 def stop_reach():
     mon = getattr(sys, "monitoring", None)
+    if _state.get("census") and os.environ.get("VERIF_ARGCENSUS"):
+        import json
+        with open(os.path.join(os.environ["VERIF_ARGCENSUS"], "census-%d.json" % os.getpid()), "w") as f:
+            json.dump({k: sorted(v) for k, v in _state["census"].items()}, f)
     if mon is None or not _state["on"]:
         return
     mon.set_events(_TOOL, 0)
